@@ -15,7 +15,7 @@ for kind in $kinds; do
     name=$(basename "$p" .patch)
     props=$(echo "$name" | grep -o 'C[0-9][0-9]' | sort -u)
     d=$(mktemp -d /tmp/verif-selftest.XXXXXX)
-    rsync -a --exclude=.git /repo/ "$d/"
+    rsync -a --exclude=.git "${VP_RUN_REPO:-/repo}/" "$d/"
     if ! (cd "$d" && patch -s -p1 < "$OLDPWD/$p"); then echo "PATCH-FAILED $name"; fail=1; rm -rf "$d"; continue; fi
     for prop in $props; do
       out=$(bin/govc check --repo "$d" --prop "$prop" --outroot /tmp/verif-selftest-out 2>&1)
